@@ -25,6 +25,7 @@ GInit == /\ hist = <<>> /\ g = [t |-> "init"]
 St(A, n) == A /\ hist' = Append(hist, n) /\ UNCHANGED g
 SNext == \/ St(CHead, "CHead") \/ St(PStill, "PStill") \/ St(PCont, "PCont") \/ St(PPush, "PPush")
          \/ St(PYield, "PYield") \/ St(PEnd, "PEnd") \/ St(CDeliver, "CDeliver") \/ St(CSuspend, "CSuspend")
+         \/ St(PDecoy, "PDecoy") \/ St(CDiscard, "CDiscard")
          \/ St(CFinish, "CFinish") \/ St(CResume, "CResume") \/ St(Fire, "Fire") \/ St(Spurious, "Spurious")
 
 FNext == /\ UNCHANGED <<vars, hist>>
